@@ -138,6 +138,13 @@ def real(case):
         kw["limit"] = case["limit"]
     if case["offset"] is not None:
         kw["offset"] = case["offset"]
+    if case.get("primed"):
+        # the layer has answered related queries before this one (same fields in the opposite order; no filters; no slicing): nothing of them may show
+        for other in (dict(kw, metrics=kw["metrics"][::-1], dimensions=kw["dimensions"][::-1]), dict(kw, filters=[]), {k: v for k, v in kw.items() if k not in ("limit", "offset", "order_by")}):
+            try:
+                con.execute(L.compile(**other)).fetchall()
+            except Exception:
+                pass
     sql = L.compile(**kw)
     cur = con.execute(sql)
     cols = [d[0] for d in cur.description]
@@ -194,6 +201,9 @@ def run(c):
     c.build_props()
     n = 400 if c.tier == "quick" else 6000
     cases = [gen_case(c.rng) for _ in range(n)]
+    for k, case in enumerate(cases):
+        if k % 3 == 0:
+            case["primed"] = True      # asked on a layer that has already answered the same fields in the opposite order, without filters and without slicing
     # fixed corpus: past disagreements and the shapes behind the listed findings
     cases[:0] = corpus_cases()
     outs = None
@@ -202,7 +212,7 @@ def run(c):
             outs = lib.coq_eval("c01_cases", PREAMBLE, [coq_term(x) for x in cases], chunk=120)
         except RuntimeError as e:
             c.obligation("model evaluation", False, "correspondence", str(e)[-1500:])
-    fid_bad, n_multi, dist = [], 0, {"ungrouped": 0, "ordered": 0, "sliced": 0, "composite": 0, "sql_backed": 0, "empty": 0, "impl_errors": 0}
+    fid_bad, n_multi, dist = [], 0, {"primed": sum(1 for x in cases if x.get("primed")), "ungrouped": 0, "ordered": 0, "sliced": 0, "composite": 0, "sql_backed": 0, "empty": 0, "impl_errors": 0}
     for i, case in enumerate(cases):
         dist["ungrouped"] += case["ungrouped"]
         dist["ordered"] += bool(case["order"])
